@@ -330,9 +330,12 @@ func Generate(p Profile, n int, seed int64) []Script {
 		// path) and possibly comes back
 		var planned []Step
 		if p.Mutations && i%4 == 3 {
-			if i%8 == 3 {
+			switch {
+			case i%16 == 15:
+				planned = g.lookalike(rng)
+			case i%8 == 3:
 				planned = g.leftover(rng)
-			} else {
+			default:
 				planned = g.reorder(rng)
 			}
 
@@ -507,6 +510,35 @@ func (g *gen) reorder(rng *rand.Rand) []Step {
 	return steps
 }
 
+// lookalike plans a history with two rules of one rule set whose id and path read the same when
+// written one after the other ("s1-k" + "/a/b" and "s1-k/a" + "/b"); the set is changed and removed.
+func (g *gen) lookalike(rng *rand.Rand) []Step {
+	a, b := g.pick(g.lits), g.pick(g.lits)
+	for strings.ContainsAny(a, `\:*`) {
+		a = "foo"
+	}
+
+	lit := func(v string) Tok { return Tok{T: "lit", V: v} }
+	mk := func(id string, e []Tok) Rule {
+		return Rule{ID: id, Src: "s1", Methods: []Method{}, Hosts: []Matcher{}, BtSet: "unset",
+			Routes: []Route{{Expr: e, Params: []Matcher{}}}}
+	}
+
+	r1 := mk("s1-k", []Tok{lit(a), lit(b)})
+	r2 := mk("s1-k/"+a, []Tok{lit(b)})
+	keep := mk("s1-keep", []Tok{lit("qux"), lit(a)})
+
+	steps := []Step{{Kind: "add", Src: "s1", Rules: []Rule{r1, r2, keep}}}
+
+	if rng.Intn(2) == 0 {
+		steps = append(steps, Step{Kind: "update", Src: "s1", Rules: []Rule{keep}})
+	} else {
+		steps = append(steps, Step{Kind: "delete", Src: "s1"})
+	}
+
+	return steps
+}
+
 func pick2(rng *rand.Rand, a, b string) string {
 	if rng.Intn(2) == 0 {
 		return a
@@ -548,7 +580,16 @@ func (g *gen) mutate(src string, cur []Rule, pool *[][]Tok) []Rule {
 	rs := cloneRules(cur)
 
 	for k := 1 + g.rng.Intn(3); k > 0; k-- {
-		switch g.rng.Intn(6) {
+		switch g.rng.Intn(7) {
+		case 6: // nothing but the backtracking setting: said explicitly (false) or left to the default rule again
+			if len(rs) > 0 {
+				i := g.rng.Intn(len(rs))
+				if rs[i].BtSet == "unset" {
+					rs[i].BtSet, rs[i].Bt = "false", false
+				} else {
+					rs[i].BtSet, rs[i].Bt = "unset", false // the effective flag is the default rule's (set by the caller)
+				}
+			}
 		case 0: // change the definition of one rule, keeping its expression
 			if len(rs) > 0 {
 				i := g.rng.Intn(len(rs))
